@@ -1,5 +1,6 @@
 import S2T.Drv.Util
 import S2T.Model.Iface
+import S2T.Model.IfaceStreams
 namespace S2T.Drv.C04
 open Lean S2T.Drv S2T.Iface
 
@@ -128,8 +129,51 @@ def digTable (j : Json) : Except String DigitVal := do
     | some v => some v
     | none => (ps.find? (·.1 == c)).map (·.2)
 
+/-- op `c04.collect`: {"kind": "stream"|"bytes", "sources": [{"t": "none"} | {"t": "fresh", "data": [byte]} |
+{"t": "cached", "key": n, "data": [byte]}], "order": [image index], "close": image index | null}: the images a
+constructor loop builds from the sources; the caller collects `get_bytes()` of ALL of them, closes the stream of image
+`close` (if given), then reads the streams in `order` ↦ per read `{"pos", "data"}` or null (raised), the reported
+sizes, and whether the handles are pairwise distinct objects -/
+def opCollect (j : Json) : Except String Json := do
+  let kind ← getStr j "kind"
+  let pk ← match kind with
+    | "stream" => pure PayloadKind.stream
+    | "bytes" => pure PayloadKind.bytes
+    | _ => throw "kind"
+  let a ← getArr j "sources"
+  let srcs ← a.toList.mapM fun s => do
+    let t ← getStr s "t"
+    match t with
+    | "none" => pure Source.none
+    | "fresh" => return Source.fresh (← natArr s "data")
+    | "cached" => return Source.cached (← getNat s "key") (← natArr s "data")
+    | _ => throw "source kind"
+  let order ← natArr j "order"
+  let (ims, w0) := buildImages pk World.empty [] srcs
+  let (hs, w1) := collect w0 ims
+  let w2 := match j.getObjVal? "close" with
+    | .ok v => match v.getNat? with
+      | .ok k => match hs[k]? with
+        | some (some h) => closeCell w1 h
+        | _ => w1
+      | .error _ => w1
+    | .error _ => w1
+  let step := fun (acc : List Json × World) (i : Nat) =>
+    match hs[i]? with
+    | some (some h) =>
+      let (o, w') := readCell acc.2 h
+      match o with
+      | some (p, d) => (acc.1 ++ [Json.mkObj [("pos", p), ("data", jNats d)]], w')
+      | none => (acc.1 ++ [Json.null], w')
+    | _ => (acc.1 ++ [Json.null], acc.2)
+  let reads := (order.foldl step ([], w2)).1
+  let ids := hs.filterMap id
+  return Json.mkObj [("reads", Json.arr reads.toArray), ("sizes", jNats (ims.map (·.sizeBytes))),
+    ("raised", Json.bool (hs.any Option.isNone)), ("distinct", Json.bool (ids.eraseDups.length == ids.length))]
+
 def handle (op : String) (j : Json) : Option (Except String Json) :=
   match op with
+  | "c04.collect" => some (opCollect j)
   | "c04.dim" => some (opDim j)
   | "c04.xls" => some (opXls j)
   | "c04.bytes" => some (opBytes j)
